@@ -72,13 +72,25 @@ pub fn run_lookup(s: &mut Scn, kind: u8, target: Id, silent: &[bool]) {
 
 /// a history of lookups; returns the KCache case
 pub fn cache_case(r: &mut Rng, n_targets: usize, n_ops: usize, roll: bool) -> String {
+    cache_case_x(r, n_targets, n_ops, roll, false)
+}
+
+/// `legacy`: peers without signed-peers support: a get_signed_peers lookup nobody answers has no candidate at all
+pub fn cache_case_x(r: &mut Rng, n_targets: usize, n_ops: usize, roll: bool, legacy: bool) -> String {
     let n_peers = 4;
-    let mut s = Scn::new(r, n_peers, false, Default::default());
+    let mut s = Scn::new_x(r, n_peers, false, Default::default(), legacy);
     let own = *s.node.actor.id();
     // target pool: index 0 is the node's own id
     let mut pool: Vec<(Id, u8)> = vec![(own, 0)];
     for _ in 1..n_targets {
         pool.push((Id::from(id20(r)), *r.pick(&[0u8, 1, 2, 3, 2, 1])));
+    }
+    // targets never looked up before, for the lookups that must start without any candidate (nothing cached for them)
+    let mut fresh_next = pool.len();
+    if legacy {
+        for _ in 0..64 {
+            pool.push((Id::from(id20(r)), 3));
+        }
     }
     // the kind of a target is fixed (the cache keeps one entry per target whatever the kind; varying it is allowed too)
     let mut ops: Vec<String> = Vec::new();
@@ -92,13 +104,31 @@ pub fn cache_case(r: &mut Rng, n_targets: usize, n_ops: usize, roll: bool) -> St
         ops.push(format!("CPut false {}", entry_coq(tidx, class_of(k), e)));
     }
     let silent_none = vec![false; n_peers];
+    let mut pending_nc = false;
     for i in 0..n_ops {
         let tidx = if roll {
             if i < n_targets { i } else { r.below(n_targets as u64) as usize }
         } else {
             r.below(n_targets as u64) as usize
         };
+        // at capacity a lookup of a cached target leaves the cache one short (the eviction comes first); the lookup
+        // without candidates is to meet a full cache: it follows the lookup of a target never seen before
+        let no_candidates = pending_nc;
+        pending_nc = false;
+        let fresh_first = !no_candidates && legacy && roll && i >= n_targets && fresh_next + 1 < pool.len() && r.chance(1, 5);
+        if fresh_first {
+            pending_nc = true;
+        }
+        let tidx = if no_candidates || fresh_first {
+            fresh_next += 1;
+            fresh_next - 1
+        } else {
+            tidx
+        };
         let (target, mut kind) = pool[tidx];
+        if fresh_first {
+            kind = 2;
+        }
         if !roll && r.chance(1, 6) {
             kind = *r.pick(&[0u8, 1, 2, 3]);
         }
@@ -111,11 +141,15 @@ pub fn cache_case(r: &mut Rng, n_targets: usize, n_ops: usize, roll: bool) -> St
             silent[1 + r.below(3) as usize] = true;
         }
         // now and then nobody answers at all: a lookup that ends with candidates but without responders
-        if !roll && r.chance(1, 8) {
+        // (in the roll: only once the cache is full - a lookup without responders at capacity)
+        if (!roll && r.chance(1, 8)) || (roll && !legacy && i >= n_targets && r.chance(1, 5)) || no_candidates {
             silent = vec![true; n_peers];
         }
         run_lookup(&mut s, kind, target, &silent);
         let snap = s.snap();
+        if no_candidates && std::env::var("MLV_DEBUG_C20").is_ok() {
+            eprintln!("DBG i={} cache={} main={:?} signed={:?}", i, snap.cache.len(), snap.stats, snap.signed_stats);
+        }
         match snap.cache.first() {
             Some(e) if e.0 == target => {
                 kinds_of_cached.insert(target, kind);
@@ -347,6 +381,7 @@ pub fn generate(seed: u64, scale: usize, which: &str) -> Cases {
     }
     // roll the cache: more than 1000 distinct targets, then repeats at capacity
     cases.push("roll_1000", cache_case(&mut r, 1004, 1040, true));
+    cases.push("roll_1000_no_candidates", cache_case_x(&mut r, 1002, 1030, true, true));
     for _ in 0..(3 * scale) {
         let n = r.range(4, 12) as usize;
         cases.push("quiescence", quiet_case(&mut r, n));
